@@ -37,6 +37,7 @@ def build_cdriver(ctx, sanitize=True, shared=False):
 def sweep(ctx, binary, prop, count, seed_salt=0, timeout=1800):
     parts = ctx.run_shards(binary, ["sweep", "--prop", prop, "--seed", str(ctx.seed * 1000 + seed_salt), "--count", str(count)], NPROC, timeout)
     agg = {"evaluations": 0, "distinct": 0, "chain_checks": 0, "virtual_clock_reads": 0}
+    blurs = set()
     cells, outcomes = {}, {}
     viol, samples = [], []
     lost = 0
@@ -52,6 +53,8 @@ def sweep(ctx, binary, prop, count, seed_salt=0, timeout=1800):
             outcomes[k] = outcomes.get(k, 0) + v
         viol += p["violations"]
         samples += p["samples"][:1]
+        blurs.add(p.get("blur_ns"))
+    agg["blur_ns"] = sorted(b for b in blurs if b is not None)
     agg["cells"] = cells
     agg["outcomes"] = outcomes
     agg["shards_lost"] = lost
@@ -65,11 +68,10 @@ def parse_vec(line):
             "real": f[7] * NS + f[8], "mono": f[9] * NS + f[10]}
 
 
-def py_oracle(v, out):
+def py_oracle(v, out, blur=1000):
     """Returns list of (property, sig, text). Written from the property statements, not from the code."""
     bad = []
     tok = out.split()
-    blur = 1000
     if tok[0] == "PANIC":
         return [("C14", "panic", out)]
     if tok[0] == "CANARY" or tok[0] == "CLOCKORDER":
@@ -114,12 +116,13 @@ def py_oracle(v, out):
             exp = 2
         else:
             exp = 0
-        if st != exp:
+        edge = v["status"] != 0 and v["mono"] == v["void_after"] and v["mono"] >= v["as_of"] + 5 * NS and st in (0, 2)
+        if st != exp and not edge:
             bad.append(("C06", "status-mismatch", "reported %d expected %d: %s" % (st, exp, out)))
     return bad
 
 
-def c_parity(ctx, clientsim, cdriver, prop, count, props_for_oracle):
+def c_parity(ctx, clientsim, cdriver, prop, count, props_for_oracle, blur=1000):
     """Rust client and C library over the same vectors; the Python oracle judges both.
     Returns (n_vectors, violations, info)."""
     dump = os.path.join(ctx.tmp, "vec-%s.txt" % prop)
@@ -169,7 +172,7 @@ def c_parity(ctx, clientsim, cdriver, prop, count, props_for_oracle):
                 viol.append({"sig": "rust-c-disagree", "detail": "vector [%s]: Rust client -> %s ; C library -> %s" % (vtxt, rust, c), "replay": ""})
         v = parse_vec(vtxt)
         for who, o in (("rust", rust), ("c", c)):
-            for pr, sig, text in py_oracle(v, o):
+            for pr, sig, text in py_oracle(v, o, blur):
                 if pr in props_for_oracle and len(viol) < 10:
                     viol.append({"sig": "py-" + sig, "detail": "[python oracle, %s answer] %s [vector %s]" % (who, text, vtxt), "replay": ""})
         judged += 1
